@@ -5,6 +5,7 @@ import (
 	"sync"
 
 	"go.brendoncarroll.net/p2p"
+	"go.brendoncarroll.net/p2p/verifhook"
 )
 
 type Queue[A p2p.Addr] struct {
@@ -44,6 +45,7 @@ func (q *Queue[A]) Deliver(m p2p.Message[A]) bool {
 		return false
 	case m2 := <-q.freelist:
 		copyMessage(&m2, &m)
+		verifhook.Point(verifhook.QueueDeliverMid)
 		select {
 		case q.queue <- m2:
 			return true
@@ -63,6 +65,7 @@ func (q *Queue[A]) DeliverVec(src, dst A, v p2p.IOVec) bool {
 		m2.Src = src
 		m2.Dst = dst
 		m2.Payload = p2p.VecBytes(m2.Payload[:0], v)
+		verifhook.Point(verifhook.QueueDeliverMid)
 		select {
 		case q.queue <- m2:
 			return true
@@ -82,6 +85,7 @@ func (q *Queue[A]) Receive(ctx context.Context, fn func(p2p.Message[A])) error {
 		return p2p.ErrClosed
 	case msg := <-q.queue:
 		fn(msg)
+		verifhook.Point(verifhook.QueueReceiveAfterFn)
 		zeroMessage(&msg)
 		q.freelist <- msg
 		return nil
